@@ -845,6 +845,10 @@ func runC14(c *Ctx) {
 		et := tb.Of(enc.Call.Args[0])
 		okEnc := et.Op == "Call" && et.Name == "encoding/json.NewEncoder" && et.Args[0].Op == "Alloc"
 		var buf ssa.Value
+		if !okEnc && et.Op == "Call" && et.Name == "encoding/json.NewEncoder" && et.Args[0].V != nil && c.pooledScratch(et.Args[0].V) {
+			// a pooled scratch buffer, reset before use; what is stored must then be a copy of its own (checked below and by C08.bytes)
+			okEnc = true
+		}
 		if okEnc {
 			buf = et.Args[0].V
 		} else {
@@ -910,6 +914,10 @@ func runC14(c *Ctx) {
 			okBytes := bt.Op == "Call" && bt.Name == "(*bytes.Buffer).Bytes" && bt.Args[0].V == buf && okEnc
 			if helperCall != nil {
 				okBytes = bt.Op == "Extract" && bt.Name == "0" && bt.Args[0].V == ssa.Value(helperCall) && okEnc
+			}
+			if buf != nil && helperCall == nil && c.pooledScratch(buf) {
+				// a pooled scratch buffer goes back into the pool: what the event keeps is a copy of its own
+				okBytes = okEnc && c.freshCopyOfScratch(a[2])
 			}
 			okSt := ftb.Of(a[0]).IsParam("2:e") && ftb.Of(a[1]).Is("Const", `"json"`) && okBytes
 			r.Check(okSt, "C14.store", recv+":store", p.InstrPos(fas[0].In), "e.FormattedAs(\"json\", buf.Bytes()) with the encoder's own private buffer, only after Encode succeeded", "the formatted bytes are not stored as FormattedAs(\"json\", bytes of the private buffer the encoder wrote)")
